@@ -234,6 +234,8 @@ func runC06(c *eng.Ctx) {
 
 	c.Rule("PASS", qT+".SetAppendedSeq{appended = acknowledged = seq on every path}", func() { resetLeavesEmptyQueue(c) })
 
+	c.Rule("GUARD", "pkg/queue.queue.persistMetaOfMessage{cached index page = page of the sequence}", func() { cachedIndexPageRule(c) })
+
 	// ---- group meta page layout -----------------------------------------------------------------
 	c.Rule("LAYOUT", "pkg/queue.consumer-group-meta", func() {
 		offs := map[string]map[int64]bool{"consumed": {}, "ack": {}}
